@@ -299,6 +299,7 @@ func explore(m *interp.Machine, fn *ssa.Function, stubs map[string]*ssa.Function
 				ctx.Unwind = hs.Unwind
 				ctx.InstrCap = hs.InstrCap
 				ctx.LoopCut = hs.LoopCut
+				ctx.Thorough = thorough
 				solver.BeginPath()
 				res := m.RunPath(ctx, fn, stubs)
 				solver.EndPath()
@@ -435,6 +436,9 @@ func nativeReplayBatch(repo string, overlayNames map[string]string, jobs []*nati
 		tbl := map[string]uint64{}
 		for _, r := range j.Inputs {
 			tbl[r.Name] = r.Val
+		}
+		if *flagTier == "thorough" {
+			tbl["__thorough"] = 1
 		}
 		tb, _ := json.Marshal(tbl)
 		tblPath := filepath.Join(tmp, fmt.Sprintf("inputs%d.json", i))
@@ -759,6 +763,7 @@ func concreteReplay(m *interp.Machine, fn *ssa.Function, stubs map[string]*ssa.F
 	ctx.Concrete = tbl
 	ctx.Unwind = 1 << 30
 	ctx.InstrCap = hs.InstrCap
+	ctx.Thorough = *flagTier == "thorough"
 	res := m.RunPath(ctx, fn, stubs)
 	for _, cv := range res.Violations {
 		if cv.Label == v.Label && (cv.Class == v.Class || v.Panic) {
